@@ -1,5 +1,5 @@
 # plan and claim for C09 (SM9 pairing groups through the verif-tagged re-export of internal/sm9/bn256)
-_CFG = ["avx2", "noadx", "avx", "purego", "ia32"]   # ADX+BMI2 / plain MULQ field arithmetic, AVX2 / SSE table select, generic Go
+_CFG = ["avx2", "noadx", "avx", "noadx-avx", "purego", "ia32"]   # ADX+BMI2 / plain MULQ field arithmetic, AVX2 / SSE table select, generic Go
 PLAN = dict(
     level="exploration",
     rule="g1/g2: every window value 1..15 at every one of the 64 window positions of the fixed-base tables, structured scalars "
